@@ -81,6 +81,32 @@ Theorem C14_single_insertion_position `{Sig} : forall E n ks e nd1 nd2 t c w cnt
 Proof. exact insert_vertex_position. Qed.
 Print Assumptions C14_single_insertion_position.
 
+(** Any number of vertices.  [insert_vertices_on_edge] refines a pure function on images ([insert_pure]: unlink the
+    edge, chain the first half of the spare darts from it, reconnect the old successor; on a two-dart edge do the same
+    from the opposite dart with the second half, gluing each new dart to the matching dart of the first side), on every
+    store; and on an interior two-dart edge (e | d2), e -> b1, d2 -> c1, with k positions and 2k pairwise distinct spare
+    darts fh ++ sh, the result is: e -> fh_1 -> ... -> fh_k -> b1 and d2 -> sh_1 -> ... -> sh_k -> c1 (k + 1 consecutive
+    segments on each side), glued segment by segment d2 | fh_k, sh_1 | fh_(k-1), ..., sh_(k-1) | fh_1, sh_k | e, and every
+    image of every other dart as it was. *)
+From HC Require Import Map2.FanTopo Map2.InsertManyTopo.
+Theorem C14_insertion_refines_pure `{Sig} : forall E n ks e nds ts c w cnt w' cnt',
+  run E (insert_vertices_on_edge n ks e nds ts) c w cnt = (Done tt, w', cnt') ->
+  forall i d, beta w' i d = insert_pure (beta w) e (firstn (length ts) nds) (skipn (length ts) nds) i d.
+Proof. exact insert_vertices_refines. Qed.
+Print Assumptions C14_insertion_refines_pure.
+
+Theorem C14_insertion_inner_segments `{Sig} : forall E n ks e nds ts c w cnt w' cnt',
+  let d2 := beta w 2 e in let b1 := beta w 1 e in let c1 := beta w 1 d2 in
+  let fh := firstn (length ts) nds in let sh := skipn (length ts) nds in
+  ts <> [] -> length nds = (2 * length ts)%nat ->
+  NoDup (e :: d2 :: b1 :: c1 :: nds) -> b1 <> 0 -> d2 <> 0 -> c1 <> 0 ->
+  run E (insert_vertices_on_edge n ks e nds ts) c w cnt = (Done tt, w', cnt') ->
+  chain (beta w') e (fh ++ [b1]) /\ chain (beta w') d2 (sh ++ [c1]) /\
+  glued (beta w') d2 (combine (rev fh) sh) /\ beta w' 2 (last sh d2) = e /\ beta w' 2 e = last sh d2 /\
+  (forall i d, ~ In d (e :: d2 :: b1 :: c1 :: nds) -> beta w' i d = beta w i d).
+Proof. exact insert_vertices_inner. Qed.
+Print Assumptions C14_insertion_inner_segments.
+
 (** Tie to the source: [insert_vertex_on_edge] -- the program of the four theorems above -- is, verbatim, the program that
     tools/tr_kern.py regenerates from cell_insertion/vertices.rs on every run (Map2/GenKern.v). *)
 From HC Require Import Map2.GenKern Map2.GenKernLaws.
